@@ -2,10 +2,13 @@
 
 (a) routing: find_path_to_target / find_one_available_ball / _setup_or_queue_eject_to_target of the real BallDevice
     class are run (unbound, on light stub devices) on generated device graphs and compared pointwise with the Coq
-    functions; (b) the eject-attempt automaton must accept the per-device event sequence of simulated runs with fault
-    sequences (same physical-world simulator as C04), and an independent oracle checks retry numbering, the
-    max_eject_attempts bound, broken reports and that every device is idle / broken / justifiably waiting once the
-    world is quiet.
+    functions; (a2) queues: sequences of requests / balls entering / ejects taken on the real request methods, compared
+    with Requests.v; (b) the eject-attempt automaton must accept the per-device event sequence of simulated runs with
+    fault sequences (same physical-world simulator as C04), the wait/waker model Waits.v must reproduce the state of
+    every device's synchronisation objects at every quiescent tick, and an independent oracle checks retry numbering,
+    the max_eject_attempts bound, broken reports and that every device is idle / broken / justifiably waiting once the
+    world is quiet (a device in state idle that sits on a request counts as stuck); (c) game: ball_save / multiball as
+    request sources; (d) idleloss: uncommanded ball loss at an idle device against IdleLoss.v.
 """
 from collections import deque
 
@@ -17,43 +20,77 @@ ID = "C05"
 READY = True
 RULE = ("routing: acyclic device graphs with 2-7 devices and 1-2 playfields, available_balls 0-2 per device, queries "
         "path / available ball / setup-or-queue for random (device, target) pairs; non-trivial = path of >= 3 hops "
-        "or a queued request.  attempts: simulated machines as in C04 (two sources into one target, two-ball staging "
-        "device, entrance-counted lock, double kick-outs, leaks, eject attempts held by a queue-event handler, an outhole "
-        "with switch/event-confirmed late balls, a never-servable request (at the trough) queued in front of a servable "
-        "one) with fault-heavy profiles (k consecutive stuck "
-        "ejects, balls falling back, confirmations after the timeout, lost balls) and max_eject_attempts 0/2/3/4; "
-        "non-trivial = at least one failed attempt.  game: a real game (start button, ball start) with a ball_save "
-        "(unlimited, eject_delay 0.8-2.5 s) and a multiball as request sources; two balls in play, two drains "
-        "0.1 s .. eject_delay+0.6 s apart, stuck ejects; non-trivial = at least two balls saved")
+        "or a queued request.  queues: the same graphs with 3-12 operations (request_ball / eject to a random target at a "
+        "random device, a claimed ball entering a device, an eject taken off a queue) run on the real request methods with a "
+        "FIFO queue for balldevice_balls_available; non-trivial = a chain was set up, an event was dispatched and something "
+        "stays queued or >= 2 chains.  attempts: simulated machines as in C04 (two sources into one target, two-ball "
+        "staging device, entrance-counted lock, double kick-outs, leaks, eject attempts held by a queue-event handler, an "
+        "outhole with switch/event-confirmed late balls, a never-servable request queued in front of a servable one), plus "
+        "C05-only templates: lost_confirmed (a switch/event-confirmed ball never reaches a 1-3 place staging device, or "
+        "arrives within +-1.2 s of its ball_missing_timeout; requests and ejects to the playfield before and after the "
+        "incoming-ball timeout) and hold_release (a real ball_hold over the lock releases one/all balls, runs of failed "
+        "ejects, second release mid-eject, a ball jumping out before the release); fault-heavy profiles (k consecutive "
+        "stuck ejects, balls falling back, confirmations after the timeout, lost and stray balls) and max_eject_attempts "
+        "0/2/3/4; non-trivial = at least one failed attempt.  game: a real game (start button, ball start) with a "
+        "ball_save (unlimited, eject_delay 0.8-2.5 s) and a multiball as request sources; two balls in play, two drains "
+        "0.1 s .. eject_delay+0.6 s apart, stuck ejects; non-trivial = at least two balls saved.  idleloss: a lock without "
+        "sources holding 1-2 balls; balls jump out uncommanded, ejects are requested 1.5-9 s later (inside / outside "
+        "idle_missing_ball_timeout); non-trivial = an eject and a booked loss in one run")
 TRUSTED_BASE = [
     "Coq 8.16.1 kernel (coqc), vm_compute for the correspondence; no native_compute",
     "axioms: none",
-    "hand-written model coq/C05/Model.v; routing tied pointwise to the real methods (bound to stub objects that carry "
-    "config['eject_targets'], _source_devices, available_balls), automaton tied by trace acceptance of simulated runs",
-    "the physical-world simulator and recorder of harness/props/balls_common.py",
+    "hand-written models coq/C05/Model.v (routing, attempt automaton), Waits.v (incoming-ball list, its events, lock and "
+    "waiters), Requests.v (request deques / eject queues / ledger), Live.v (outcomes -> automaton trace), IdleLoss.v",
+    "routing and queues tied pointwise to the real BallDevice methods bound to stub objects (config['eject_targets'], "
+    "_source_devices, available_balls, _ball_requests, a recording outgoing handler, a FIFO event queue in device order)",
+    "automaton, Waits.v and IdleLoss.v tied by replaying recorded real runs: class-level hooks of harness/props/"
+    "balls_common.py (attribute writes, event posts, a logging list in place of IncomingBallsHandler._incoming_balls, wrappers "
+    "of remove_incoming_ball / wait_for_ball_count_changed / incoming_balls_changed / start_eject / end_eject / "
+    "_external_confirm) and the values of asyncio.Event/Lock objects read at quiescent ticks",
+    "the physical-world simulator of harness/props/balls_common.py",
 ]
 ASSUMPTIONS = [
     "device graphs are acyclic (find_path_to_target has no visited set and recurses forever on a cycle that does not "
-    "contain the target; real machine configs are validated to have a path)",
-    "coil ejectors, confirm_eject_type target; player-controlled / mechanical ejects (unbounded wait by design) are "
-    "not generated",
-    "liveness is proved for the automaton only (every timed phase has an enabled timeout step and the number of "
-    "attempts of one eject is bounded by max_eject_attempts); that asyncio delivers the timeouts is validated",
+    "contain the target; real machine configs are validated to have a path); completeness of the searches is proved for "
+    "simple chains / routes within the search depth (fuel = number of devices + 1)",
+    "coil ejectors, confirm_eject_type target / switch / event; player-controlled / mechanical ejects (unbounded wait by "
+    "design) are not generated",
+    "liveness (Live.v) is proved under fairness hypotheses on the world: every attempt gets an outcome; without a retry "
+    "limit the world eventually lets a ball through or loses it.  The simulator satisfies them per run (every fired ball "
+    "arrives, strays or is booked lost before the run is judged; held queue events are released); that asyncio delivers "
+    "the timeouts is validated, not proved",
+    "Waits.v treats one call plus everything IncomingBallsHandler._run does until it blocks again as one step "
+    "(single-threaded loop); which of the two wake-up sites the tree has for timed-out balls is read off each run "
+    "(the patch fixes/C05-wake-source-when-incoming-ball-times-out.patch is pending)",
+    "IdleLoss.v: an eject with a ball in the device is atomic; a leak while an eject is pending is outside the model "
+    "(excluded cases are counted)",
 ]
 DESIGN_REF = "DESIGN.md section 3, C05"
-TECHNIQUE = ("Coq proof over hand-written routing functions and attempt automaton + pointwise differential test of the "
-             "routing methods + trace acceptance of simulated runs (vm_compute) + direct progress oracle")
-LEVEL_TEXT = ("Machine-checked proof (Coq): every path returned by the routing functions follows eject_targets edges "
-              "from the source to the requested target; a request is either served with such a chain or queued "
-              "(never dropped) and it is queued only if no device upstream has an available ball; in the "
-              "eject-attempt automaton attempts are numbered 0,1,2.. and with max_eject_attempts = m > 0 no eject makes "
-              "more than m attempts: it ends in success, lost-ball report or eject_broken; every phase that waits on "
-              "the physical world has an enabled timeout step (no silent hang). The routing functions are compared "
-              "pointwise with the real methods; that the real coroutines follow the automaton is validated on "
-              "sampled simulated runs, and timing (asyncio timeouts) is validated, not proved.")
-LEVEL_NOTE = ("Proved: routing correctness and automaton bounds, all inputs. Validated only: the automaton tie (sampled "
-              "runs), delivery of timeouts by the event loop, request re-serving on balldevice_balls_available "
-              "(oracle: no servable queued request at quiescence).")
+TECHNIQUE = ("Coq proofs over hand-written models (routing functions, attempt automaton, wait/waker state machine of a "
+             "target device, request/eject queue system, outcome-driven progress, idle ball loss) + pointwise differential "
+             "tests of the real routing / request methods + replay of recorded real runs on the models (vm_compute) + "
+             "direct progress oracle")
+LEVEL_TEXT = ("Machine-checked proof (Coq), all inputs / histories: routing returns only valid chains, finds an available "
+              "ball or a route whenever one exists within the search depth, and a request is served, queued (then nothing "
+              "upstream is available) or refused (then no route) - never dropped, under any sequence of requests, balls "
+              "entering and balls_available dispatches, with no ball promised twice and deques / eject queues served oldest "
+              "first; attempts are numbered and with max_eject_attempts = m > 0 an eject is over after at most m attempts and "
+              "eject_broken comes after exactly m (m = 0: retries for ever, finishes as soon as the world lets a ball "
+              "through); under a fair world every queued eject is finished in order or the device reports itself broken; in "
+              "the patched code every blocked coroutine of a target device (sources waiting for room, the own eject waiting "
+              "for 'no incoming balls', the incoming-balls task) waits only while something that resolves it is still "
+              "pending, and is released once the incoming balls are resolved.  The same statement is refuted, with "
+              "executable witnesses that replay on the code, for /repo HEAD (a confirmed incoming ball times out: known "
+              "finding + proposed fix), for the code before 5520da9, for an eject requested while an uncommanded ball loss "
+              "is being booked (known finding) and for 'the oldest request is served when possible' (known finding).  "
+              "Routing/request methods are compared pointwise with the real methods; that the real coroutines follow the "
+              "automaton, the wait model and the idle-loss model is validated on recorded simulated runs at every quiescent "
+              "tick; asyncio timing is validated, not proved.")
+LEVEL_NOTE = ("Proved: routing soundness+completeness, request accounting / ledger / FIFO, automaton bounds (exact), "
+              "outcome-driven liveness under stated fairness, wait/waker invariant of the patched code, refutations for the "
+              "four defective behaviours.  Validated only: that the coroutines follow the models (sampled runs, every "
+              "quiescent tick), delivery of timeouts by the event loop, physical delivery (oracle: quiescence, balls in "
+              "play delivered, no stuck device, no device sitting on a request in state idle).")
 
 
 # ------------------------------------------------------------------------------------------------
@@ -266,9 +303,232 @@ def nontrivial_route(case, out):
 
 
 # ------------------------------------------------------------------------------------------------
+# (a2) request / eject queues: sequences of requests, claimed balls entering and ejects being taken, on the real
+# methods (stub devices as above, but with the real setup_eject_chain / setup_eject_chain_next_hop /
+# _source_device_balls_available / _balls_added_callback and a FIFO event queue for balldevice_balls_available)
+def gen_queue(rng, tier, i):
+    c = gen_route(rng, tier, i)
+    n = len(c["g"])
+    nodes = [d for d, _ in c["g"]]
+    pfs = [100 + p for p in range(c["npf"])]
+    ops = []
+    for _ in range(rng.choice([3, 5, 8, 12])):
+        r = rng.random()
+        d = rng.choice(nodes)
+        if r < 0.55:
+            ops.append(["req", d, rng.choice([d, d] + nodes + pfs * 3)])
+        elif r < 0.8:
+            ops.append(["ball", d])
+        else:
+            ops.append(["pop", d])
+    c["avail"] = [[d, rng.choice([0, 0, 0, 0, 1])] for d in range(n)]
+    c["ops"] = ops
+    del c["q"]
+    return c
+
+
+def run_queue(case):
+    from collections import deque as dq
+    from mpf.devices.ball_device.ball_device import BallDevice
+    pending = []
+    chains = []
+
+    class Ev:
+        @staticmethod
+        def post_boolean(name, **kw):
+            if name == "balldevice_balls_available":
+                pending.append(name)
+
+        @staticmethod
+        def post(name, **kw):
+            pass
+
+    class Machine:
+        events = Ev()
+
+    class Pf:
+        def __init__(self, name):
+            self.name = name
+            self.available_balls = 0
+
+        @staticmethod
+        def is_playfield():
+            return True
+
+    class OH:
+        def __init__(self):
+            self.q = []
+
+        def add_eject_to_queue(self, eject):
+            self.q.append(eject.target.name)
+
+    class Dev:
+        find_path_to_target = BallDevice.find_path_to_target
+        find_one_available_ball = BallDevice.find_one_available_ball
+        _setup_or_queue_eject_to_target = BallDevice._setup_or_queue_eject_to_target
+        setup_eject_chain_next_hop = BallDevice.setup_eject_chain_next_hop
+        _source_device_balls_available = BallDevice._source_device_balls_available
+        _balls_added_callback = BallDevice._balls_added_callback
+        _real_chain = BallDevice.setup_eject_chain
+        machine = Machine()
+        tags = []
+
+        def __init__(self, name):
+            self.name = name
+            self.config = {"eject_targets": [], "eject_timeouts": {}, "max_eject_attempts": 0}
+            self._source_devices = []
+            self._ball_requests = dq()
+            self.available_balls = 0
+            self.outgoing_balls_handler = OH()
+
+        def setup_eject_chain(self, path, player_controlled=False):
+            chains.append([p.name for p in path])
+            return self._real_chain(path, player_controlled)
+
+        @staticmethod
+        def is_playfield():
+            return False
+
+        def debug_log(self, *a, **kw):
+            pass
+
+        info_log = warning_log = debug_log
+
+    objs = {}
+    for d, _ in case["g"]:
+        objs[d] = Dev(d)
+    for p in range(case["npf"]):
+        objs[100 + p] = Pf(100 + p)
+    for d, ts in case["g"]:
+        objs[d].config["eject_targets"] = [objs[t] for t in ts]
+        objs[d].config["eject_timeouts"] = {objs[t]: 1000 for t in ts}
+    for d, _ in case["g"]:
+        for s_, ts in case["g"]:
+            if d in ts:
+                objs[d]._source_devices.append(objs[s_])
+    for d, a in case["avail"]:
+        objs[d].available_balls = a
+    order = [objs[d] for d, _ in case["g"]]
+    trace = []
+    refused = 0
+    issued = 0
+    errors = []
+
+    def drain():
+        n = 0
+        while pending and n < 200:
+            pending.pop(0)
+            n += 1
+            trace.append(["dispatch"])
+            for dev in order:
+                # post_boolean: a handler that returns False ends the event (the real method returns None)
+                if dev._source_device_balls_available() is False:
+                    break
+
+    for op in case["ops"]:
+        try:
+            if op[0] == "req":
+                issued += 1
+                trace.append(op)
+                try:
+                    objs[op[1]]._setup_or_queue_eject_to_target(objs[op[2]])
+                except AssertionError as e:
+                    if "Do not know how to eject" not in str(e):
+                        raise
+                    refused += 1
+            elif op[0] == "ball":
+                trace.append(op)
+                objs[op[1]]._balls_added_callback(1, 0)
+            else:
+                trace.append(op)
+                q = objs[op[1]].outgoing_balls_handler.q
+                if q:
+                    q.pop(0)
+            drain()
+        except Exception as e:      # what the real methods raise is data
+            errors.append("%s: %s" % (type(e).__name__, str(e)[:200]))
+            break
+    return {"trace": trace, "dev": [[objs[d].available_balls] + list(objs[d].outgoing_balls_handler.q) for d, _ in case["g"]],
+            "reqs": [[t.name for t, _pc in objs[d]._ball_requests] for d, _ in case["g"]],
+            "pf": [objs[100 + p].available_balls for p in range(case["npf"])],
+            "counts": [len(pending), len(chains), refused], "issued": issued, "chains": chains, "errors": errors}
+
+
+def coq_queue(case, out):
+    if out["errors"]:
+        return None
+    g = coqlist("(%s,%s)" % (zlit(d), zl(ts)) for d, ts in case["g"])
+    av = coqlist("(%s,%s)" % (zlit(d), zlit(a)) for d, a in case["avail"])
+    ops = []
+    for t in out["trace"]:
+        ops.append("QRequest %s %s" % (zlit(t[1]), zlit(t[2])) if t[0] == "req" else "QBallAdded %s" % zlit(t[1])
+                   if t[0] == "ball" else "QPop %s" % zlit(t[1]) if t[0] == "pop" else "QDispatch")
+    exp = [zl(x) for x in out["dev"]] + [zl(x) for x in out["reqs"]] + [zl(out["pf"]), zl(out["counts"])]
+    return "((%s, %s, %s, %s), %s)" % (g, av, zl([100 + p for p in range(case["npf"])]), coqlist(ops), coqlist(exp))
+
+
+def oracle_queue(case, out):
+    fails = []
+    if out["errors"]:
+        return [{"sig": "queue-exception", "what": "request handling raised: %s" % out["errors"][0]}]
+    queued = sum(len(r) for r in out["reqs"])
+    if out["issued"] != out["counts"][1] + out["counts"][2] + queued:
+        fails.append({"sig": "request-dropped", "what": "%d requests issued but %d chains set up + %d refused + %d queued" %
+                      (out["issued"], out["counts"][1], out["counts"][2], queued)})
+    if any(d[0] < 0 for d in out["dev"]) or any(a < 0 for a in out["pf"]):
+        fails.append({"sig": "ball-promised-twice", "what": "available_balls negative: %r %r" % (out["dev"], out["pf"])})
+    e = _edges(case)
+    for ch in out["chains"]:
+        if not all(ch[i + 1] in e.get(ch[i], []) for i in range(len(ch) - 1)):
+            fails.append({"sig": "bad-chain", "what": "chain %r does not follow eject targets" % ch})
+            break
+    # eject queues are FIFO: what is left at a device is a suffix of what the chains queued there, in chain order
+    for (d, _), row in zip(case["g"], out["dev"]):
+        want = [ch[i + 1] for ch in out["chains"] for i in range(len(ch) - 1) if ch[i] == d]
+        q = row[1:]
+        if q != want[len(want) - len(q):] if q else False:
+            fails.append({"sig": "eject-queue-order", "what": "device %r: queue %r is not a suffix of %r" % (d, q, want)})
+            break
+    # quiescent (no event pending): the oldest request of a device must not be servable
+    if out["counts"][0] == 0:
+        av = {d: row[0] for (d, _), row in zip(case["g"], out["dev"])}
+        c2 = dict(case, avail=[[d, a] for d, a in av.items()])
+        for (d, _), reqs in zip(case["g"], out["reqs"]):
+            if reqs and av[d] > 0 and reqs[0] != d and not _upstream_available(c2, d) and \
+                    sum(1 for t in reqs if t == d) >= 1:
+                # exactly the recorded behaviour: every ball gives the deque two tries (one in _balls_added_callback,
+                # one for the balldevice_balls_available it posts), each takes the head only and puts an unservable
+                # request_ball (target = the device itself, needs a ball UPSTREAM) back at the end
+                fails.append({"sig": "request-starves-behind-self-requests", "what": "device %r holds an available ball "
+                              "and its oldest request (target %r) could use it, but request_ball()s of the device "
+                              "itself were tried instead and no further event is pending: %r" % (d, reqs[0], reqs)})
+                break
+            if reqs and ((av[d] > 0 and reqs[0] != d) or _upstream_available(c2, d)):
+                fails.append({"sig": "servable-request-queued", "what": "no event pending but the oldest request of "
+                              "device %r (target %r) is still queued although a ball is available (own %d)" %
+                              (d, reqs[0], av[d])})
+                break
+    return fails
+
+
+def shrink_queue(case):
+    ops = case["ops"]
+    for i in range(len(ops)):
+        yield dict(case, ops=ops[:i] + ops[i + 1:])
+
+
+def nontrivial_queue(case, out):
+    return out["counts"][1] >= 1 and any(t[0] == "dispatch" for t in out["trace"]) and \
+        (sum(len(r) for r in out["reqs"]) > 0 or out["counts"][1] >= 2)
+
+
+# ------------------------------------------------------------------------------------------------
 # (b) attempts
 def gen_att(rng, tier, i):
-    if rng.random() < 0.4:
+    r = rng.random()
+    if r < 0.2:
+        return bc.gen_case(rng, tier, i, profile=rng.choice(bc.C05_TEMPLATES + ["lost_confirmed"]))
+    if r < 0.5:
         return bc.gen_case(rng, tier, i, profile=rng.choice(bc.TEMPLATES + ["double_kick", "cap2_mid_eject"]))
     c = bc.gen_case(rng, tier, i, profile=rng.choice(["faulty", "faulty", "busy"]))
     t = c["topo"]
@@ -344,12 +604,92 @@ def ev_term(e):
     return "ABroken"
 
 
+def wait_items(case, out):
+    """per device (as a target): the recorded calls on its IncomingBallsHandler / BallCountHandler in program order,
+    interleaved with what its synchronisation objects showed at every quiescent point (coq/C05/Waits.v).  Returns
+    {dev: (wake_on_timeout observed, capacity, initial count, [items])} or None when the tree does not expose them."""
+    devs = bc.device_table(case["topo"])
+    log = out["log"]
+    start = next(i for i, it in enumerate(log) if it[0] == "T")
+    if len(log[start]) < 6 or any(log[start][5].get(d) is None for d in devs):
+        return None
+    res = {}
+    for d in devs:
+        items, idmap, lost, pending_ir = [], {}, 0, set()
+        wot = 1
+        batch_open = False      # timed-out balls were taken off the list, their first report has not been seen yet
+        batch_woken = False
+        for it in log[start:]:
+            k = it[0]
+            if k == "T":
+                w = it[5][d]
+                items.append("IObs %s %s %s %s" % (zlit(w[0]), zlit(w[1]), zlit(w[2]), zlit(lost)))
+                continue
+            if k == "W" and it[1] == d and it[2] == "count" and isinstance(it[4], int):
+                items.append("IOp (WCount %s)" % zlit(it[4]))
+                continue
+            if k not in bc.WAIT_ITEMS and k != "L":
+                continue
+            if it[1] != d:
+                continue
+            if k == "IB+":
+                idmap[it[2]] = len(idmap)
+                items.append("IOp WAdd")
+            elif k == "XC":
+                items.append("IOp (WConfirm %s)" % zlit(idmap.get(it[2], -1)))
+            elif k == "IR":
+                pending_ir.add(it[2])
+            elif k == "IB-":
+                if it[2] in pending_ir:
+                    pending_ir.discard(it[2])
+                    items.append("IOp (WRemove %s)" % zlit(idmap.get(it[2], -1)))
+                else:
+                    items.append("IOp (WFire %s)" % zlit(idmap.get(it[2], -1)))
+                    batch_open, batch_woken = True, False
+            elif k == "ICH":
+                if batch_open:
+                    batch_woken = True
+            elif k == "L":
+                lost += 1
+                if batch_open:
+                    if not batch_woken:
+                        wot = 0
+                    batch_open = False
+            elif k == "CW":
+                items.append("IOp WSrcWait")
+            elif k == "OW":
+                items.append("IOp WOutWait")
+            elif k == "LK+":
+                items.append("IOp WLock")
+            elif k == "LK-":
+                items.append("IOp WUnlock")
+        # advance_time_and_run stops the loop as soon as its sleep is over: callbacks made ready in that last iteration
+        # (e.g. _run woken by a cancelled timeout future) have not run yet, so a tick is not always quiescent.  An
+        # observation is compared only when it is confirmed by an identical next observation, or is the last one of the
+        # run (>= 3 s of rest or 120 s after the last action); a lasting wrong value is therefore always seen
+        keep = []
+        for j, x in enumerate(items):
+            if x.startswith("IObs") and j + 1 < len(items) and items[j + 1] != x:
+                continue
+            keep.append(x)
+        res[d] = (wot, devs[d]["cap"], log[start][1][d][0], keep)
+    return res
+
+
 def coq_att(case, out):
     if out.get("error") or out.get("sim_error"):
         return None
     devs, ev = project(case, out)
     inp = coqlist("(%s, %s)" % (zlit(devs[d]["att"]), coqlist(ev_term(e) for e in ev[d])) for d in devs)
-    return "(%s, %s)" % (inp, coqlist("[-1]" for _ in devs))
+    wi = wait_items(case, out)
+    if wi is None:
+        raise ValueError("the wait state of the ball devices (IncomingBallsHandler._has_no_incoming_balls, "
+                         "_incoming_balls, BallCountHandler._ball_count_changed_futures) is not observable")
+    # wake_on_remove is what /repo has since 5520da9; wake_on_timeout is read off the run (the proposed patch
+    # fixes/C05-wake-source-when-incoming-ball-times-out.patch adds it): both codes are modelled, Props.v proves the
+    # waker theorem for the patched one and refutes it for the unpatched one
+    winp = coqlist("((1, %s), %s, %s, %s)" % (zlit(w[0]), zlit(w[1]), zlit(w[2]), coqlist(w[3])) for w in wi.values())
+    return "((%s, %s), (%s, %s))" % (inp, winp, coqlist("[-1]" for _ in devs), coqlist("-1" for _ in devs))
 
 
 def oracle_att(case, out):
@@ -403,6 +743,16 @@ def oracle_att(case, out):
             for d, v in devs.items():
                 st = snap[d][3]
                 t = v["target"]
+                if st == "idle" and not fin["idle"][d] and _held_since(out, d, fin) >= 20000000:
+                    # the outgoing handler has taken (or holds) an eject request but never announces any state: it is
+                    # blocked before "waiting_for_ball"/"waiting_for_target_ready" (count validation, the wait for "no
+                    # incoming balls" in front of an eject to a playfield) although the world is quiet
+                    w = (fin.get("waits") or {}).get(d)
+                    fails.append({"sig": "stuck-before-eject", "what": "world quiet for %.0f s but %s (state idle, holds %d "
+                                  "balls, %d incoming) sits on an eject request to %s without starting it%s" %
+                                  ((fin["t"] - fin["last_phys"]) / 1e6, d, truth["dev"][d], snap[d][4], t,
+                                   "" if not w else "; its no-incoming-balls event is %s" % ("set" if w[0] else "CLEAR"))})
+                    continue
                 if st in ("idle", "eject_broken"):
                     continue
                 if st == "waiting_for_ball" and truth["dev"][d] == 0 and v["sources"]:
@@ -424,7 +774,25 @@ def oracle_att(case, out):
                                   "%s for ever although %s has room: the slot was promised to a ball of another source "
                                   "that was booked as lost" % (d, t, t)})
                     continue
-                if st == "waiting_for_ball" and truth["dev"][d] == 0 and fin.get("spont_loss", {}).get(d):
+                if st == "waiting_for_target_ready" and t in devs and _slot_timed_out(out, d, t, fin, devs):
+                    # fixes/C05-wake-source-when-incoming-ball-times-out.patch: the slot was promised to a ball that was
+                    # confirmed by a confirm switch / event and timed out at the target; _run removes it without waking
+                    fails.append({"sig": "stuck-waiting-for-slot-of-timed-out-incoming-ball", "what": "%s waits for room in "
+                                  "%s for ever although %s has room (holds %d of %d, 0 incoming): the slot was promised to a "
+                                  "confirmed ball whose incoming-ball entry timed out" %
+                                  (d, t, t, truth["dev"][t], devs[t]["cap"])})
+                    continue
+                if st == "waiting_for_ball" and truth["dev"][d] == 0 and _dangling_after_failed_restore(out, d):
+                    # lost_incoming_ball ran between two queued ejects of <d>: nothing to cancel (cancel_path_if_target_is:
+                    # "TODO: check queue entries"), no available ball to re-request: "Failed to restore the path"; the eject
+                    # that was queued for the lost ball is started afterwards and waits for a ball for ever
+                    fails.append({"sig": "dangling-eject-after-failed-path-restore", "what": "%s waits for a ball for ever: "
+                                  "an incoming ball timed out while %s was between two queued ejects, the path could "
+                                  "neither be cancelled nor restored, and the eject queued for the lost ball was started "
+                                  "afterwards" % (d, d)})
+                    continue
+                if st == "waiting_for_ball" and truth["dev"][d] == 0 and fin.get("spont_loss", {}).get(d) and \
+                        _in_loss_window(out, d):
                     # the ball left the idle device uncommanded and an eject was requested before MPF had booked the loss
                     # (idle_missing_ball_timeout): "Lost ball between ejects. Ignoring." -- the eject waits for ever
                     fails.append({"sig": "stuck-after-uncommanded-ball-loss", "what": "%s waits for a ball for ever: its "
@@ -437,6 +805,69 @@ def oracle_att(case, out):
             # a queued request that could be served
             fails += bc.starved_requests(case, out)
     return fails
+
+
+def _held_since(out, d, fin):
+    """for how long (us) <d> has been in state idle with a non-idle outgoing handler, up to the end of the run"""
+    since = None
+    for it in out["log"]:
+        if it[0] == "T" and len(it) > 5 and it[5] and it[5].get(d):
+            busy = it[1][d][3] == "idle" and not it[5][d][3]
+            if busy and since is None:
+                since = it[4]
+            elif not busy:
+                since = None
+    return 0 if since is None else fin.get("t", since) - since
+
+
+def _dangling_after_failed_restore(out, d):
+    """exactly the recorded defect: the LAST lost_incoming_ball of <d> found no cancellable eject (the device was not in
+    waiting_for_ball), no available ball, and at least one eject still queued; <d> went to waiting_for_ball afterwards and
+    no ball has entered it since"""
+    log = out["log"]
+    idx = [i for i, it in enumerate(log) if it[0] == "L" and it[1] == d and len(it) >= 8]
+    if not idx:
+        return False
+    it = log[idx[-1]]
+    if it[6] or it[5] > 0 or it[7] < 1:
+        return False
+    after = log[idx[-1]:]
+    went = any(x[0] == "W" and x[1] == d and x[2] == "state" and x[4] == "waiting_for_ball" and x[3] != x[4] for x in after)
+    entered = any(x[0] == "W" and x[1] == d and x[2] == "count" and isinstance(x[3], int) and x[4] > x[3] for x in after)
+    return went and not entered
+
+
+def _in_loss_window(out, d):
+    """exactly the recorded defect: something (eject, release, collect, ...) was requested from <d> within
+    idle_missing_ball_timeout (5 s + count settle) after a ball had left it uncommanded"""
+    now, leaks, reqs = 0, [], []
+    for it in out["log"]:
+        if it[0] == "T":
+            now = it[4]
+        elif it[0] == "S" and it[1] == "leak" and it[2] == d:
+            leaks.append(it[4])
+        elif it[0] == "A" and it[1] not in ("hold", "claim"):
+            reqs.append(now)
+    return any(tl - 300000 <= tr <= tl + 6300000 for tl in leaks for tr in reqs)
+
+
+def _slot_timed_out(out, d, t, fin, devs):
+    """exactly the recorded defect: since <d> began to wait for room in <t> an incoming ball of <t> timed out (reported
+    through lost_incoming_ball), <t> now has room and nobody has changed its count since"""
+    log = out["log"]
+    start = None
+    for i, it in enumerate(log):
+        if it[0] == "W" and it[1] == d and it[2] == "state" and it[3] != it[4]:
+            start = i if it[4] == "waiting_for_target_ready" else None
+    if start is None:
+        return False
+    lost = [i for i in range(start, len(log)) if log[i][0] == "L" and log[i][1] == t]
+    if not lost:
+        return False
+    if any(it[0] == "W" and it[1] == t and it[2] == "count" for it in log[lost[-1]:]):
+        return False
+    snap = fin["snap"]
+    return devs[t]["cap"] - snap[t][0] > snap[t][4]
 
 
 def gen_game(rng, tier, i):
@@ -464,6 +895,93 @@ def oracle_game(case, out):
     return fails
 
 
+# ------------------------------------------------------------------------------------------------
+# (d) a ball leaves an idle device uncommanded; ejects requested around the moment MPF books the loss (IdleLoss.v)
+def gen_idle(rng, tier, i):
+    k = rng.choice([1, 1, 2])
+    topo = bc._base_topo(rng, trough_n=rng.choice([3, 4]), lock_k=k)
+    okpf = lambda: ["ok", rng.choice([20, 50, 80]), 0, rng.choice([100, 300, 700])]     # noqa
+    okdev = lambda: ["ok", rng.choice([20, 50, 80]), rng.choice([300, 600, 1000]), -1]  # noqa
+    script = []
+    for j in range(k):
+        script += [[500 if j == 0 else 3500, "add_ball"], [rng.choice([4000, 5000]), "lockshot", rng.choice([300, 500])]]
+    t = 0.0
+    deadline = None         # when _handle_missing_balls gives up waiting (about 5 s after the last leak was noticed)
+    pending = False         # an eject was requested inside the window
+    first = True
+    for _ in range(rng.choice([2, 3, 3, 4, 5])):
+        gap = 4000 if first else rng.choice([1500, 3000, 3000, 6500, 9000])
+        first = False
+        a = rng.choice(["lockleak", "lockleak", "eject", "eject", "wait"])
+        if deadline is not None and abs(t + gap - deadline) < 1300:
+            gap += 2600
+        if deadline is not None and t + gap > deadline:
+            deadline, pending = None, False
+        if a == "lockleak" and pending:
+            a = "wait"      # outside the model: "Lost ball between ejects. Ignoring."
+        t += gap
+        if a == "lockleak":
+            script.append([gap, a, 1])
+            deadline = t + 5300
+        elif a == "eject":
+            script.append([gap, a, "lock"])
+            if deadline is not None:
+                pending = True
+        else:
+            script.append([gap, a])
+    return {"topo": topo, "script": script, "faults": {"trough": [okdev() for _ in range(6)],
+                                                        "plunger": [okpf() for _ in range(6)],
+                                                        "lock": [okpf() for _ in range(8)]},
+            "claims": [1, 1, 1, 1], "profile": "idle_loss"}
+
+
+def idle_ops(case, out):
+    """(balls in the lock when the first operation comes, [operations], final observation) or None (outside the model)"""
+    log = out["log"]
+    state, k, ops, seen = "idle", None, [], False
+    last_t = None
+    for it in log:
+        if it[0] == "T":
+            last_t = it
+        elif it[0] == "W" and it[1] == "lock" and it[2] == "state":
+            state = it[4]
+        elif (it[0] == "S" and it[1] == "leak" and it[2] == "lock") or (it[0] == "A" and it[1] == "eject"):
+            if k is None:
+                if last_t is None or last_t[1]["lock"][0] != last_t[3]["dev"]["lock"] or last_t[1]["lock"][3] != "idle":
+                    return None
+                k = last_t[1]["lock"][0]
+            if it[0] == "S":
+                if last_t[5]["lock"] is None or not last_t[5]["lock"][3]:
+                    return None     # a leak while an eject is pending
+                ops.append("LLeak")
+            else:
+                ops.append("LEject")
+        elif it[0] == "W" and it[1] == "lock" and it[2] == "count" and k is not None and isinstance(it[3], int) and \
+                it[4] < it[3] and state in ("idle", "waiting_for_ball"):
+            ops.append("LTimeout")
+    fin = out.get("final")
+    if k is None or not fin:
+        return None
+    s = fin["snap"]["lock"]
+    code = {"idle": 0, "waiting_for_ball": 1}.get(s[3], 9)
+    return k, ops, [code, s[0], s[2], s[5]]
+
+
+def coq_idle(case, out):
+    if out.get("error") or out.get("sim_error"):
+        return None
+    r = idle_ops(case, out)
+    if r is None:
+        return None
+    k, ops, obs = r
+    return "((%s, %s), %s)" % (zlit(k), coqlist(ops), zl(obs))
+
+
+def nontrivial_idle(case, out):
+    r = None if out.get("error") or out.get("sim_error") else idle_ops(case, out)
+    return bool(r) and "LTimeout" in r[1] and "LEject" in r[1]
+
+
 def nontrivial_game(case, out):
     fin = out.get("final") or {}
     g = fin.get("game") or {}
@@ -481,16 +999,23 @@ def describe_att(case):
 
 
 HDR_ROUTE = "From C05 Require Import Model.\nDefinition run := route_run.\nDefinition out_eqb := route_out_eqb.\n"
-HDR_ATT = ("From C05 Require Import Model.\nDefinition run (l : list (Z * list aev)) := map auto_run l.\n"
-           "Definition out_eqb := list_eqb auto_out_eqb.\n"
-           "Definition fstonly (l : list Z) := match l with x :: _ => [x] | [] => [] end.\n")
-HDR_ATT = HDR_ATT.replace("map auto_run l", "map (fun i => match auto_run i with x :: _ => [x] | [] => [] end) l")
+HDR_ATT = ("From C05 Require Import Model Waits.\n"
+           "Definition run (x : list (Z * list aev) * list ((Z * Z) * Z * Z * list witem)) :=\n"
+           "  (map (fun i => match auto_run i with x :: _ => [x] | [] => [] end) (fst x), map waits_run (snd x)).\n"
+           "Definition out_eqb (a b : list (list Z) * list Z) := zss_eqb (fst a) (fst b) && zs_eqb (snd a) (snd b).\n")
+
+HDR_QUEUE = "From C05 Require Import Model Requests.\nDefinition run := req_run.\nDefinition out_eqb := zss_eqb.\n"
+HDR_IDLE = "From C05 Require Import IdleLoss.\nDefinition run := idle_run.\nDefinition out_eqb := zs_eqb.\n"
 
 SUITES = [
     Suite("routing", gen_route, run_route, HDR_ROUTE, coq_route, oracle_route, shrink_route, nontrivial_route,
           {"quick": 3000, "thorough": 60000}, shard=500),
+    Suite("queues", gen_queue, run_queue, HDR_QUEUE, coq_queue, oracle_queue, shrink_queue, nontrivial_queue,
+          {"quick": 1500, "thorough": 40000}, shard=500),
     Suite("attempts", gen_att, run_att, HDR_ATT, coq_att, oracle_att, bc.shrink_case, nontrivial_att,
           {"quick": 220, "thorough": 5000}, describe=describe_att, shard=40, case_timeout=120),
     Suite("game", gen_game, run_att, HDR_ATT, coq_att, oracle_game, bc.shrink_case, nontrivial_game,
           {"quick": 60, "thorough": 1500}, describe=describe_att, shard=30, case_timeout=120),
+    Suite("idleloss", gen_idle, run_att, HDR_IDLE, coq_idle, oracle_att, bc.shrink_case, nontrivial_idle,
+          {"quick": 40, "thorough": 1200}, describe=describe_att, shard=40, case_timeout=120),
 ]
